@@ -27,6 +27,11 @@ var (
 
 func init() {
 	logger.Log.SetOutput(io.Discard)
+	// logrus Fatal*: do not kill the test process; end the calling goroutine and remember it
+	logger.Log.ExitFunc = func(int) {
+		zzExitFlag = true
+		runtime.Goexit()
+	}
 	zzResetHook = zzEnvReset
 }
 
